@@ -27,6 +27,17 @@ from jsonpath.pointer import UNDEFINED
 from jsonpath.pointer import JSONPointer
 
 
+def _member_name(parent: Mapping[str, object], key: Union[int, str]) -> Union[int, str]:
+    """Return the mapping key addressed by pointer part _key_.
+
+    JSON Pointer turns parts that look like array indexes into ints, but JSON
+    object member names are always strings.
+    """
+    if isinstance(key, int) and key not in parent:
+        return str(key)
+    return key
+
+
 class Op(ABC):
     """One of the JSON Patch operations."""
 
@@ -74,7 +85,7 @@ class OpAdd(Op):
             else:
                 parent.insert(int(target), self.value)
         elif isinstance(parent, MutableMapping):
-            parent[target] = self.value
+            parent[_member_name(parent, target)] = self.value
         else:
             raise JSONPatchError(
                 f"unexpected operation on {parent.__class__.__name__!r}"
@@ -183,7 +194,7 @@ class OpRemove(Op):
         elif isinstance(parent, MutableMapping):
             if obj is UNDEFINED:
                 raise JSONPatchError("can't remove nonexistent property")
-            del parent[self.path.parts[-1]]
+            del parent[_member_name(parent, self.path.parts[-1])]
         else:
             raise JSONPatchError(
                 f"unexpected operation on {parent.__class__.__name__!r}"
@@ -221,7 +232,7 @@ class OpReplace(Op):
         elif isinstance(parent, MutableMapping):
             if obj is UNDEFINED:
                 raise JSONPatchError("can't replace nonexistent property")
-            parent[self.path.parts[-1]] = self.value
+            parent[_member_name(parent, self.path.parts[-1])] = self.value
         else:
             raise JSONPatchError(
                 f"unexpected operation on {parent.__class__.__name__!r}"
